@@ -24,6 +24,50 @@ def define(src, name, which=0):
     return int(ms[which], 0)
 
 
+def all_sources():
+    import glob
+    return "\n".join(open(f, encoding="latin-1").read() for f in sorted(glob.glob(os.path.join(L, "*.[ch]"))))
+
+
+def evalc(expr, srcs, depth=0):
+    """value of a C integer constant expression made of literals, named constants, + - * << | and casts"""
+    e = re.sub(r"/\*.*?\*/", " ", expr, flags=re.S)
+    e = re.sub(r"\(\s*(?:unsigned\s+|signed\s+)?(?:int|long|short|char|size_t|unsigned)\s*\)", " ", e)     # casts
+    e = re.sub(r"\b(0[xX][0-9a-fA-F]+|\d+)[uUlL]*\b", lambda m: str(int(m.group(1), 0)), e)
+    def name(m):
+        if depth > 6:
+            die("constant expression too deep: %s" % expr)
+        return str(resolve(m.group(0), srcs, depth + 1))
+    e = re.sub(r"\b[A-Za-z_]\w*\b", name, e)
+    if not re.fullmatch(r"[\d\s()+\-*|<>]+", e):
+        die("cannot evaluate constant expression %r" % expr)
+    return int(eval(e, {"__builtins__": {}}, {}))
+
+
+def resolve(name, srcs, depth=0):
+    """value of a named constant, however it is written: #define, enumerator, static const object"""
+    if re.fullmatch(r"(0[xX][0-9a-fA-F]+|\d+)[uUlL]*", name):
+        return int(re.match(r"0[xX][0-9a-fA-F]+|\d+", name).group(0), 0)
+    pats = [r"#\s*define\s+%s[ \t]+([^\n]+?)[ \t]*(?:/\*.*)?\n" % name,
+            r"\b%s\s*=\s*([^,}\n;]+?)\s*[,}\n]" % name,                                  # enumerator
+            r"static\s+const\s+[\w\s]+?\b%s\s*=\s*([^;]+);" % name]
+    vals = set()
+    for p in pats:
+        for m in re.finditer(p, srcs):
+            vals.add(evalc(m.group(1), srcs, depth))
+    if len(vals) != 1:
+        die("constant %s: %s" % (name, "not found" if not vals else "several values %s" % sorted(vals)))
+    return vals.pop()
+
+
+def used(src, pat, what):
+    """the constant the code USES at a given place (by the shape of the expression, whatever the constant is called)"""
+    ms = set(re.findall(pat, src))
+    if len(ms) != 1:
+        die("%s: usage site not found (or ambiguous): %s" % (what, sorted(ms)))
+    return ms.pop()
+
+
 def cstr(src, pat):
     m = re.search(pat, src)
     if not m:
@@ -40,12 +84,23 @@ def main():
                                          rd("strbuf.c"), rd("strvec.c"), rd("grammar.c"), rd("scanner.c"),
                                          rd("grammar.y"))
     z = {}
-    z["MAX_INCLUDE_DEPTH"] = define(sx, "MAX_INCLUDE_DEPTH")
-    z["LIST_CHUNK_SIZE"] = define(lc, "CHUNK_SIZE")
-    z["DEFAULT_TAB_WIDTH"] = define(lc, "DEFAULT_TAB_WIDTH")
-    z["DEFAULT_FLOAT_PRECISION"] = define(lc, "DEFAULT_FLOAT_PRECISION")
-    z["STRING_BLOCK_SIZE"] = define(sb, "STRING_BLOCK_SIZE")
-    z["STRVEC_CHUNK_SIZE"] = define(sv, "CHUNK_SIZE")
+    # the constants of the hand-written sources are taken from the places that USE them (the shape of the expression),
+    # and their values resolved through #define / enum / static const, so that renaming a constant or writing its value
+    # differently does not matter while a changed value does
+    srcs = all_sources()
+    srcs_no_gen = "\n".join(rd(f) for f in ("libconfig.c", "libconfig.h", "scanctx.c", "scanctx.h", "strbuf.c", "strbuf.h",
+                                            "strvec.c", "strvec.h", "util.c", "util.h", "parsectx.h"))
+    z["MAX_INCLUDE_DEPTH"] = resolve(used(sxc, r"ctx->stack_depth\s*==\s*([A-Za-z_]\w*|[1-9]\d*)", "include depth limit"), sxc + sx)
+    z["LIST_CHUNK_SIZE"] = resolve(used(lc, r"list->length\s*%\s*(\w+)\)\s*==\s*0", "element vector chunk"), lc + h)
+    if set(re.findall(r"list->length\s*\+\s*(\w+)\)\s*\*\s*sizeof", lc)) != {used(lc, r"list->length\s*%\s*(\w+)\)\s*==\s*0", "chunk")}:
+        die("element vector: the growth step and the boundary test use different constants")
+    mi = re.search(r"\nvoid\s+config_init\s*\([^)]*\)\s*\{(.*?)\n\}", lc, re.S)
+    if not mi:
+        die("config_init not found")
+    z["DEFAULT_TAB_WIDTH"] = resolve(used(mi.group(1), r"config->tab_width\s*=\s*(\w+)\s*;", "default tab width"), lc + h)
+    z["DEFAULT_FLOAT_PRECISION"] = resolve(used(mi.group(1), r"config->float_precision\s*=\s*(\w+)\s*;", "default float precision"), lc + h)
+    z["STRING_BLOCK_SIZE"] = resolve(used(sb, r"newlen\s*\+\s*\(\s*(\w+)\s*-\s*1\s*\)", "string block size"), sb + rd("strbuf.h"))
+    z["STRVEC_CHUNK_SIZE"] = resolve(used(sv, r"vec->capacity\s*\+=\s*(\w+)\s*;", "string vector chunk"), rd("strvec.c") + rd("strvec.h"))
     z["YYMAXDEPTH"] = define(g, "YYMAXDEPTH")
     z["YYINITDEPTH"] = define(g, "YYINITDEPTH")
     z["YY_BUF_SIZE"] = define(sc, "YY_BUF_SIZE", 1)          # the non-__ia64__ branch
@@ -58,10 +113,7 @@ def main():
               "CONFIG_OPTION_OPEN_BRACE_ON_SEPARATE_LINE", "CONFIG_OPTION_ALLOW_SCIENTIFIC_NOTATION",
               "CONFIG_OPTION_FSYNC", "CONFIG_OPTION_ALLOW_OVERRIDES", "CONFIG_TRUE", "CONFIG_FALSE"):
         z[n] = define(h, n)
-    m = re.search(r"char fbuf\[(\d+)\];", lc)
-    if not m:
-        die("fbuf size not found")
-    z["FBUF_SIZE"] = int(m.group(1))
+    z["FBUF_SIZE"] = resolve(used(lc, r"char\s+fbuf\[(\w+)\]\s*;", "float buffer size"), lc + h)
     m = re.search(r"config->options = \((.*?)\);", lc, re.S)
     if not m:
         die("default options not found")
@@ -69,10 +121,10 @@ def main():
     for name in re.findall(r"CONFIG_OPTION_\w+", m.group(1)):
         dflt |= z[name]
     z["DEFAULT_OPTIONS"] = dflt
-    m = re.search(r"snprintf\(buf, buflen - (\d+), fmt, precision, val\)", rd("util.c"))
-    if not m:
-        die("format_double snprintf not found")
-    z["FORMAT_DOUBLE_SLACK"] = int(m.group(1))
+    slack = set(re.findall(r"snprintf\(\s*buf\s*,\s*buflen\s*-\s*(\d+)\s*,", rd("util.c")))
+    if len(slack) != 1:
+        die("format_double snprintf size not found (or not unique): %s" % sorted(slack))
+    z["FORMAT_DOUBLE_SLACK"] = int(slack.pop())
     s = {}
     s["PATH_TOKENS"] = cstr(lc, r'#define PATH_TOKENS "([^"]*)"')
     s["ERR_IO"] = cstr(lc, r'__io_error = "([^"]*)"')
